@@ -62,6 +62,8 @@ class ChunkParser:
             elif not self.last:
                 # Ignore chunk extensions, if any
                 self.size = int(line.split(b';', 1)[0], 16)
+                if self.size < 0:
+                    raise ValueError('Negative chunk size')
                 self.state = chunkParserStates.WAITING_FOR_DATA
             # else: trailer field after the last chunk, ignored
         elif self.state == chunkParserStates.WAITING_FOR_DATA:
